@@ -81,6 +81,23 @@ InitPairZero ==
      p4 \in PairOpts(OptsOf({0, 1}, {1})) :
     c = MkPair(PKz, <<p1, p2, p3, p4>>, OszZero)
 
+\* insertion order as a dimension: the items of A and of B are handed to the builder in every
+\* order (the lists of the case are the insertion orders; the snapshot is their set). Keys on both
+\* sides of the signed boundary, pre-agreed and explicit sizes; B changes some values, so kept,
+\* changed, added and removed items occur in every order, additions before and after kept keys.
+OKeys3 == {<<1, 7>>, <<4, 0>>, <<32769, 5>>}
+OKeys4 == OKeys3 \cup {<<2, 2>>}
+ODataA(k) == CASE k = <<1, 7>> -> <<5>> [] k = <<4, 0>> -> <<MAX>> [] k = <<32769, 5>> -> <<>> [] k = <<2, 2>> -> <<1, -1>>
+ODataB(k) == CASE k = <<1, 7>> -> <<5>> [] k = <<4, 0>> -> <<MIN>> [] k = <<32769, 5>> -> <<>> [] k = <<2, 2>> -> <<0, MIN>>
+OrderedSubsets(K) == UNION {SetToSeqs(sub) : sub \in SUBSET K}
+OItems(ks, D(_)) == [j \in 1..Len(ks) |-> [t |-> ks[j][1], i |-> ks[j][2], d |-> D(ks[j])]]
+InitPairOrderQuick ==
+  \E ka \in OrderedSubsets(OKeys3), kb \in OrderedSubsets(OKeys3) :
+    c = [op |-> "pair", A |-> OItems(ka, ODataA), B |-> OItems(kb, ODataB), osz |-> OszPairs(OszSmall)]
+InitPairOrderThorough ==
+  \E ka \in OrderedSubsets(OKeys4), kb \in OrderedSubsets(OKeys4) :
+    c = [op |-> "pair", A |-> OItems(ka, ODataA), B |-> OItems(kb, ODataB), osz |-> OszPairs(OszSmall)]
+
 SnapOfItems(its) == FoldLeft(LAMBDA f, it : (<<it.t, it.i>> :> it.d) @@ f, EmptySnap, its)
 OszOf(p) == FoldLeft(LAMBDA f, x : (x[1] :> x[2]) @@ f, EmptySnap, p)
 \* C09 on the model
@@ -353,6 +370,26 @@ TypeSweepLaw ==
   /\ (IF c.kind \in {"di", "db"} THEN TotalDeltaLaw ELSE TotalSnapLaw)
   /\ LET q == CheckRegistry(TSnap(c.t, c.def))
      IN IF c.def \/ c.t < OffsetExt THEN q.ok ELSE ~q.ok /\ q.e = "MissingUuidType"
+
+\* object reuse: the objects the input is read into held another snapshot before (none, empty,
+\* ordinal-only, one / two UUID types, larger); the result depends on the input only, so the laws
+\* and the judge do not look at `prev`
+PU1 == (<<TypeEx, 16384>> :> U2) @@ (<<16384, 0>> :> <<1>>)
+Big6 == [k \in {<<5, id>> : id \in 0..5} |-> <<k[2], 1>>]
+PrevSet == {<<>>, WireInts(EmptySnap), WireInts(CS3), WireInts(PU1), WireInts(CS1), WireInts(Big6)}
+ReuseInputs == {EmptySnap, CS3, CS1, PU1, TSnap(32768, FALSE), (<<5, 1>> :> <<7>>)}
+InitReuse ==
+  \E prev \in PrevSet, S \in ReuseInputs :
+    \/ c = [op |-> "parse", kind |-> "si", w |-> WireInts(S), adds2 |-> RegAdds2, other |-> COther, prev |-> prev]
+    \/ c = [op |-> "parse", kind |-> "sb", w |-> WireBytes(S), adds2 |-> RegAdds2, other |-> COther, prev |-> prev]
+    \/ c = [op |-> "parse", kind |-> "si", w |-> SubSeq(WireInts(S), 1, Len(WireInts(S)) - 1), adds2 |-> RegAdds2, other |-> COther, prev |-> prev]
+    \/ c = [op |-> "parse", kind |-> "di", w |-> DeltaWire(Delta(CS1, S), OszNone), adds2 |-> RegAdds2,
+            other |-> COther, base |-> WireInts(CS1), osz |-> <<>>, prev |-> prev]
+ReuseLaw == IF c.kind = "di" THEN TotalDeltaLaw ELSE TotalSnapLaw
+\* the same for the copies of C10
+InitSnapReuse ==
+  \E prev \in PrevSet, a \in BoundedSeq(AddOpt(STq, {0}, {<<7>>}), 2) :
+    c = [op |-> "snap", adds |-> a, adds2 |-> BaseAdds2, probe |-> ProbesOf(STq \cup {U3}, {0, 1}), prev |-> prev]
 
 \* ------------------------------------------------------------------ family big (real limits)
 \* n items of type ty (ids 0..n-1), lengths chosen so that the total number of data integers is `ints`
